@@ -222,6 +222,11 @@ func (e *env) checkTx(id string, ok bool) (reply string, panicked bool, pval any
 	if panicked {
 		return
 	}
+	reply = classifyCheckTx(err, cbRes)
+	return
+}
+
+func classifyCheckTx(err error, cbRes abci.Response) (reply string) {
 	switch {
 	case err == nil:
 		r, isC := cbRes.(abci.ResponseCheckTx)
